@@ -209,27 +209,38 @@ class Analysis(object):
         self.key_positions = []    # (path_of_container, key, scope) for every schema-constant key present
         self.typed_positions = []  # (path, T|'section'|'list', scope) for every typed position present
         self.var_positions = []    # (path_of_map, name, scope) for every variable definition
+        self.containers = []       # (path, scope) of every dict whose keys are fixed by the schema
         self.comp_ids = []         # ids of executable (non-import) main components + placeholders
         self.edges = []
 
-    def faults(self):
-        out = []
-        if any(sc == 'active' for _, sc in self.unknown):
-            out.append('unknown-key')
-        if any(sc == 'active' for _, sc in self.wrong):
-            out.append('wrong-type')
+    def fault_scopes(self, judge_all=True):
+        """{fault kind: sorted scopes}. Unknown keys / wrong types carry the scope of the place they were found at:
+        'active' (a section that shapes the configuration of the platform being loaded), 'inactive' (a section of
+        another platform), 'ineffective' (a wrongly typed value every component overrides, or of a variable nobody
+        uses), 'derived' (a value the format defines as computed: `platforms`, `isRepeat`; never judged)."""
+        ok = ('active', 'inactive', 'ineffective') if judge_all else ('active',)
+        out = {}
+        for kind, lst in (('unknown-key', self.unknown), ('wrong-type', self.wrong)):
+            sc = sorted(set(s for _, s in lst if s in ok))
+            if sc:
+                out[kind] = sc
         if self.duplicates:
-            out.append('duplicate')
+            out['duplicate'] = ['active']
         if self.dangling:
-            out.append('dangling')
+            out['dangling'] = ['active']
         if self.cycle:
-            out.append('cycle')
+            out['cycle'] = ['active']
         if self.undefined:
-            out.append('undefined-variable')
+            out['undefined-variable'] = ['active']
         return out
 
-    def verdict(self):
-        if self.faults():
+    def faults(self, judge_all=True):
+        order = ('unknown-key', 'wrong-type', 'duplicate', 'dangling', 'cycle', 'undefined-variable')
+        fs = self.fault_scopes(judge_all)
+        return [k for k in order if k in fs]
+
+    def verdict(self, judge_all=True):
+        if self.faults(judge_all):
             return 'broken'
         if self.grey or self.unknown or self.wrong:
             return 'grey'
@@ -298,6 +309,8 @@ def _walk(v, schema, path, scope, platform, an, comp_flavor):
     # dict schema with constant keys
     if path:
         an.typed_positions.append((path, 'section', scope))
+    if isinstance(v, dict):
+        an.containers.append((path, scope))
     if not isinstance(v, dict):
         if v is None:
             an.grey.append('null-section:%s' % '.'.join(map(str, path)))
@@ -406,6 +419,9 @@ def analyse(root, platform, nonc=()):
         an.grey.append('no-executable-main-component')
     if len(imports) > 1:
         an.grey.append('several-imports')
+    stages = sorted(set(e['stage'] for e in comps + imports + inner if e['stage'] is not None))
+    if stages and stages != list(range(len(stages))):
+        an.grey.append('stage-gap:%s' % stages)
 
     # ---- identifiers
     seen = {}
@@ -569,9 +585,16 @@ def analyse(root, platform, nonc=()):
     an.used_vars = used_anywhere
     # a wrongly typed value that a higher layer overrides for every component it applies to (or a variable nobody
     # uses) never reaches a component: the statement does not say whether that workflow "contains" the fault
-    an.wrong = [(p, ('ineffective' if sc == 'active' and effective(allc, root, platform, p) is False else sc))
+    an.wrong = [(p, ('derived' if is_derived(p) else
+                     'ineffective' if sc == 'active' and effective(allc, root, platform, p) is False else sc))
                 for p, sc in an.wrong]
     return an
+
+
+def is_derived(path):
+    """Values the format defines as computed from the rest of the document (what is written is not what is used)."""
+    p = tuple(path)
+    return p[:2] == ('doc', 'platforms') or p[-2:] == ('workflowAttributes', 'isRepeat')
 
 
 # ------------------------------------------------------------------------------------------------ layering (shadowing)
@@ -676,9 +699,6 @@ def soundness(obs, nonc=()):
     dups = sorted(set(x for x in listed if listed.count(x) > 1))
     if dups or len(nodes) != len(nodeset):
         out.append(('unsound:duplicate-ids', 'accepted workflow lists identifiers more than once: %r' % dups))
-    if set(listed) != nodeset:
-        out.append(('unsound:nodes-differ-from-components',
-                    'graph nodes %r differ from the listed components %r' % (sorted(nodeset), sorted(set(listed)))))
     # placeholders: a looped component stageN.<k>#<name> stands behind the placeholder stageN.<name>
     placeholders = {}
     for n in nodeset:
